@@ -450,6 +450,18 @@ func checkC12IDs(r *Report, p *Prog) {
 						// the single vararg is randomBytes(n)
 						for _, lf := range rootLeaves(c.Call.Args[1], map[ssa.Value]bool{}) {
 							if mi, okm := lf.(*ssa.MakeInterface); okm {
+								// the body of randomBytes written out in place: a fresh buffer of k bytes filled from the random
+								// source, the use reached only when the fill succeeded
+								if k, whyB := inlineRandomBuf(a.Ctx(st.Parent()), mi.X, st.Block()); k > 0 {
+									if whyB == "" && k >= 16 {
+										ok = true
+										detail = fmt.Sprintf("id-%%x of %d bytes read in place from the random source", k)
+									} else if whyB != "" {
+										detail = whyB
+									} else {
+										detail = "fewer than 16 random bytes"
+									}
+								}
 								if rc, okr := mi.X.(*ssa.Call); okr && rc.Call.StaticCallee() != nil && isRandomBytes(p, rc.Call.StaticCallee()) {
 									if k, okk := constInt(rc.Call.Args[0]); okk && k >= 16 {
 										ok = true
@@ -1529,4 +1541,58 @@ func checkRequestDecoder(r *Report, p *Prog, rule string) {
 	}
 	sort.Strings(foreign)
 	r.Check(len(foreign) == 0, rule, p.FnName(fn)+": a request is refused only for its method or a failing decoding step", p.Pos(fn.Pos()), fmt.Sprintf("%d conditions, all decoding errors or the method", len(a.B.Support(rej))), "the decoder also refuses requests under "+strings.Join(foreign, ", ")+": a request this library's SP produces (any relay state, either binding) is turned away before it is validated")
+}
+
+// inlineRandomBuf: v is a local buffer of constant length k (make([]byte, k)) that is filled by io.ReadFull from the
+// configured RandReader, and block b is reached only when that call returned no error. Returns k (0 when v is not such a
+// buffer) and, for a buffer that is filled differently or used although the fill failed, the reason.
+func inlineRandomBuf(fc *FuncCtx, v ssa.Value, b *ssa.BasicBlock) (int64, string) {
+	var k int64
+	switch x := v.(type) {
+	case *ssa.MakeSlice:
+		n, ok := constInt(x.Len)
+		if !ok {
+			return 0, ""
+		}
+		k = n
+	case *ssa.Slice:
+		al, ok := x.X.(*ssa.Alloc)
+		if !ok || x.Low != nil {
+			return 0, ""
+		}
+		at, ok := al.Type().(*types.Pointer).Elem().Underlying().(*types.Array)
+		if !ok {
+			return 0, ""
+		}
+		k = at.Len()
+		if x.High != nil {
+			n, ok := constInt(x.High)
+			if !ok {
+				return 0, ""
+			}
+			k = n
+		}
+	default:
+		return 0, ""
+	}
+	if k <= 0 || v.Referrers() == nil {
+		return 0, ""
+	}
+	fc.ensureConds()
+	B := fc.A.B
+	for _, rf := range *v.Referrers() {
+		c, ok := rf.(*ssa.Call)
+		if !ok || !calleeIs(c, "io.ReadFull") || c.Call.Args[1] != v {
+			continue
+		}
+		if !strings.HasSuffix(fc.AP(c.Call.Args[0]), ".RandReader") {
+			return k, "the buffer is filled from " + fc.AP(c.Call.Args[0]) + ", not from the configured RandReader"
+		}
+		nm := "isnil(" + fc.AP(c) + "#1)"
+		if !(B.HasVar(nm) && fc.Implied(b, B.Var(nm))) {
+			return k, "the identifier is built although reading the random source failed"
+		}
+		return k, ""
+	}
+	return 0, ""
 }
